@@ -1,6 +1,7 @@
 /-
   C03 — Tainting never leaves fewer than min_nodes schedulable nodes.
 -/
+import EscProofs.P.GenLoopsModel
 import EscProofs.P.GenLoops
 import EscProofs.P.GenReap
 import EscProofs.Lemmas.Run
